@@ -649,6 +649,14 @@ impl DbInner {
 			}
 		}
 
+		// Validate the whole transaction before any of it becomes visible.
+		for indexed in commit.indexed.values() {
+			indexed.check(&self.options)?;
+		}
+		for iterset in commit.btree_indexed.values() {
+			iterset.check(&self.options)?;
+		}
+
 		let mut overlay = self.commit_overlay.write();
 
 		queue.record_id += 1;
@@ -2122,6 +2130,29 @@ impl IndexedChangeSet {
 
 	fn push_node_change(&mut self, change: NodeChange) {
 		self.node_changes.push(change);
+	}
+
+	/// Check that every operation is valid for the column. A transaction is checked as a whole
+	/// before any part of it is copied to the commit overlay.
+	fn check(&self, options: &Options) -> Result<()> {
+		let ref_counted = options.columns[self.col as usize].ref_counted;
+		for change in self.changes.iter() {
+			match change {
+				Operation::Set(..) | Operation::Dereference(..) => (),
+				Operation::Reference(..) =>
+					if !ref_counted {
+						return Err(Error::InvalidInput(format!("No Rc for column {}", self.col)))
+					},
+				Operation::InsertTree(..) |
+				Operation::ReferenceTree(..) |
+				Operation::DereferenceTree(..) =>
+					return Err(Error::InvalidInput(format!(
+						"Invalid operation for column {}",
+						self.col
+					))),
+			}
+		}
+		Ok(())
 	}
 
 	fn copy_to_overlay(
